@@ -218,9 +218,44 @@ def is_bool(d):
 
 def judge_case(d, obs=None):
     """evaluates the text of C13 on what the implementation returned; -> list of violated clauses"""
+    if obs is None:
+        obs = run_impl(d)
     bad = _judge_case(d, obs)
+    if not bad and obs[0] in ("num", "str"):
+        bad = consumers(d, obs)
     if bad and inf_only(d):
         bad = ["inf_only: " + b if ("not accepted" in b or "NaN" in b or "not inside" in b) else b for b in bad]
+    return bad
+
+
+def consumers(d, obs):
+    """'every row is assigned to exactly one bin' as seen through the two public consumers of bin_feature: the tables of
+    compute_bias and compute_marginal for the same feature have one row per group of bin_feature and their counts add up
+    to the number of rows"""
+    from model_diagnostics.calibration import compute_bias, compute_marginal
+    n = len(d["values"])
+    groups = len({None if r is None else (r if isinstance(r, str) else r[0]) for r in obs[2]})
+    bad = []
+    y = np.arange(n, dtype=float) % 3
+    z = np.ones(n)
+    for api in ("compute_bias", "compute_marginal"):
+        try:
+            with pl.StringCache():
+                feat = build_feature(d)
+                if api == "compute_bias":
+                    t = compute_bias(y, z, feature=feat, n_bins=d["n_bins"], bin_method=d["method"])
+                    cnt = t.get_column("bias_count")
+                else:
+                    fs = feat if isinstance(feat, pl.Series) else pl.Series(values=feat)
+                    t = compute_marginal(y, z, X=pl.DataFrame({"f": fs}), feature_name="f", n_bins=d["n_bins"], bin_method=d["method"])
+                    cnt = t.get_column("count")
+        except Exception as e:  # noqa: BLE001
+            bad.append(f"{api} raised {type(e).__name__} for a feature bin_feature accepts")
+            continue
+        if int(cnt.sum()) != n:
+            bad.append(f"{api}: counts add up to {int(cnt.sum())} for {n} rows (rows lost or duplicated)")
+        if t.height != groups:
+            bad.append(f"{api}: {t.height} table rows for {groups} groups of bin_feature")
     return bad
 
 
